@@ -541,6 +541,40 @@ class Gen:
                  "%d %d %d %d" % (z, z + 1, val["snap"], val["snap"] + 100))]
         return src, main
 
+    def subclass_overload_family(self):
+        """A subclass adds new overloads (not overrides) of a name its base already has; the overload that runs
+        for a call through a base-typed reference is the one resolved on the static class.  And objects handed
+        out by a method die exactly when their last reference is dropped."""
+        r = self.r
+        k1, k2 = r.randint(1, 9), r.randint(1, 9)
+        src = ["class OvBase {\n    public constructor() -> OvBase = default;\n"
+               "    public function pick(long n) -> int {\n        echo(\"OvBase.pick(long)\");\n        return 1;\n    }\n"
+               "    public function tag(OvBase o) -> int {\n        echo(\"OvBase.tag(OvBase)\");\n        return 2;\n    }\n}",
+               "class OvSub extends OvBase {\n    public constructor() -> OvSub {\n        super();\n        return this;\n    }\n"
+               "    public function pick(int n) -> int {\n        echo(\"OvSub.pick(int)\");\n        return 3;\n    }\n"
+               "    public function tag(OvSub o) -> int {\n        echo(\"OvSub.tag(OvSub)\");\n        return 4;\n    }\n}",
+               "class Noisy {\n    public int id;\n    public constructor(int id) -> Noisy {\n        this.id = id;\n        return this;\n    }\n"
+               "    public destructor() -> void {\n        echo(\"~Noisy\" + this.id);\n    }\n}",
+               "class Maker {\n    public constructor() -> Maker = default;\n    public function make(int k) -> Noisy {\n"
+               "        return new Noisy(k);\n    }\n    public function same(Noisy n) -> Noisy {\n        return n;\n    }\n}"]
+        main = [("OvBase ob = new OvSub();", None), ("OvSub os = new OvSub();", None)]
+        calls = [("echo(ob.pick(%d));" % k1, ["OvBase.pick(long)", "1"]), ("echo(ob.tag(ob));", ["OvBase.tag(OvBase)", "2"]),
+                 ("echo(ob.tag(os));", ["OvBase.tag(OvBase)", "2"]), ("echo(os.pick(%d));" % k2, ["OvSub.pick(int)", "3"]),
+                 ("echo(os.tag(os));", ["OvSub.tag(OvSub)", "4"]), ("echo(os.pick(5L));", ["OvBase.pick(long)", "1"])]
+        r.shuffle(calls)
+        for line, exp in calls[:r.randint(3, 6)]:
+            main.append((line, exp[0]))
+            main.append((None, exp[1]))
+        main.append(("Maker mk = new Maker();", None))
+        form = r.randrange(3)
+        if form == 0:
+            main += [("Noisy n1 = mk.make(%d);" % k1, None), ("destroy n1;", "~Noisy%d" % k1), ('echo("after-destroy");', "after-destroy")]
+        elif form == 1:
+            main += [("Noisy n1 = mk.make(%d);" % k1, None), ("n1 = null;", "~Noisy%d" % k1), ('echo("after-null");', "after-null")]
+        else:
+            main += [("{", None), ("    Noisy n1 = mk.same(mk.make(%d));" % k1, None), ("}", "~Noisy%d" % k1), ('echo("after-block");', "after-block")]
+        return src, main
+
     def drop_functions(self):
         """function dropK() -> int { K t = new K(..); echo("dropK"); return 7; }: the local object dies
         because the function returns (its destructor chain runs while the return is in flight)."""
@@ -806,7 +840,8 @@ class Gen:
             emit(1, "echo(b2.get());")
             out += ["2", "1", "8", "x"]
         for line, exp in self.web_main:
-            emit(1, line)
+            if line is not None:
+                emit(1, line)
             if exp is not None:
                 out.append(exp)
         emit(1, 'echo("end");')
@@ -834,6 +869,10 @@ class Gen:
         web, self.web_main = self.generic_web() if self.r.random() < 0.7 else ([], [])
         if self.r.random() < 0.5:
             dsrc, dmain = self.default_bind_family()
+            web = web + dsrc
+            self.web_main = self.web_main + dmain
+        if self.r.random() < 0.5:
+            dsrc, dmain = self.subclass_overload_family()
             web = web + dsrc
             self.web_main = self.web_main + dmain
         drops = self.drop_functions()
